@@ -204,6 +204,17 @@ def _spec(v):
   return v
 
 
+def attr_fresh(x):
+  """an attrs object rebuilt from its fields, so that nothing cached inside it is used"""
+  import attr
+  if attr.has(type(x)):
+    try:
+      return attr.evolve(x)
+    except Exception:  # pylint: disable=broad-except
+      return x
+  return x
+
+
 def _record_case(case):
   """real run with every record kind; facts about the rendering"""
   import openhtf as htf
@@ -237,6 +248,8 @@ def _record_case(case):
     # the same attachment names as p1 with other contents: attachments belong to their phase
     test.attach('blob.bin', payload[::-1] + b'p2')
     test.attach('t.txt', 'other text')
+    if case.get('stop_sub'):
+      return htf.PhaseResult.STOP       # the subtest ends the test: its record says STOP
     return htf.PhaseResult.FAIL_SUBTEST if case.get('fail_sub') else None
   nodes = [p1, phase_branches.PhaseFailureCheckpoint.last('cp1'),
            htf.Subtest('st', p2, phase_branches.DiagnosisCheckpoint('cp2', phase_branches.DiagnosisCondition.on_all(R.B),
@@ -252,6 +265,13 @@ def _record_case(case):
   for name in ('phases', 'subtests', 'branches', 'checkpoints', 'diagnoses', 'log_records', 'diagnosers'):
     facts[name] = '%d:%d' % (len(getattr(r, name)), len(b.get(name, [])) if name in b else -1)
   facts['has_log_records'] = '1' if len(r.log_records) > 0 else '0'
+  # content, not only length: every (cached) list of the record's rendering equals a from-scratch rendering of the
+  # in-memory objects
+  from openhtf.util import data as data_mod
+  for name in ('subtests', 'branches', 'checkpoints', 'diagnoses', 'diagnosers'):
+    fresh = [data_mod.convert_to_base_types(attr_fresh(x)) for x in getattr(r, name)]
+    same = json.dumps(b.get(name, []), sort_keys=True, default=str) == json.dumps(fresh, sort_keys=True, default=str)
+    facts[name + '_content'] = '1' if same else '0'
   # the rendering is made of base types only, before and after the JSON conversion
   def base_only(x):
     if isinstance(x, dict):
@@ -484,7 +504,7 @@ def gen_cases(rng, tier):
   for v in [5, NAN, {'k': INF}, [1, None], 'x'] + ([] if tier == 'quick' else pool):
     for allow_nan in (False, True):
       cases.append({'kind': 'R', 'value': _spec(v), 'allow_nan': allow_nan, 'fail_sub': bool(len(cases) % 2),
-                    'size': 1 + len(cases) % 3})
+                    'size': 1 + len(cases) % 3, 'stop_sub': len(cases) % 3 == 0})
   for i in range(120 if tier == 'quick' else 3000):
     r = rng.derive('x%d' % i)
     ops = []
